@@ -8,18 +8,27 @@
 (*                which differs only in null-vs-"" of the request header's *)
 (*                client id when the Go client id is "") and must decode   *)
 (*                the frame back to `value`;                               *)
+(*   mode "nil" : as "rt", but the driver passes every EMPTY array / bytes  *)
+(*                value of a field that is not nullable at this version as *)
+(*                a Go nil slice: nil is Go's empty slice, the frame must  *)
+(*                be the same (an empty array, never null);                *)
 (*   mode "dec" : decode-only: unknown tagged fields injected into every   *)
 (*                tag section, Kafka-known tagged fields present, "" at    *)
 (*                nullable strings, null record sets.                      *)
+(* Every vector also carries specRoundTrip: WireDecode!SafeDecode applied   *)
+(* to the frame followed by sentinel bytes returns exactly the value, the  *)
+(* header fields, and the frame length (the specification's own Encode /   *)
+(* Decode consistency, checked by TLC on every generated value).           *)
 (* Inputs (environment): SCHEMAS (ndjson, one normalised message per line),*)
-(* TARGETS (ndjson: {m: index into SCHEMAS, v, rt: [rows], dec: [rows]}),  *)
-(* SALT (integer), OUT (ndjson file to write).                             *)
+(* TARGETS (ndjson: {m: index into SCHEMAS, v, rt, dec, nil: [rows]}),     *)
+(* SALT (integer), OUT (ndjson file to write), LAYOUT (optional).          *)
 (***************************************************************************)
-EXTENDS Wire, Json, IOUtils
+EXTENDS WireDecode, Json, IOUtils
 
 Schemas == ndJsonDeserialize(IOEnv.SCHEMAS)
 Targets == ndJsonDeserialize(IOEnv.TARGETS)
 Salt    == atoi(IOEnv.SALT)
+WithLayout == "LAYOUT" \in DOMAIN IOEnv      \* also emit the layout map of every frame (used to name the field at a differing byte)
 
 ClientPool == << [null |-> FALSE, b |-> << 99 >>], [null |-> TRUE, b |-> << >>], [null |-> FALSE, b |-> << 118, 104, 45, 195, 169 >>],
                  [null |-> FALSE, b |-> << >>], [null |-> FALSE, b |-> Rep(120, 128)], [null |-> FALSE, b |-> << 107 >>],
@@ -28,28 +37,35 @@ ClientPool == << [null |-> FALSE, b |-> << 99 >>], [null |-> TRUE, b |-> << >>],
 Vector(t, r, mode) ==
     LET m     == Schemas[t.m]
         v     == t.v
-        val   == GenStruct(m.fields, v, r, Salt, mode)
+        val   == GenStruct(m.fields, v, r, Salt, IF mode = "nil" THEN "rt" ELSE mode)
         corr  == P32[(Idx(r, Salt + 6) % 6) + 1]
         cl    == ClientPool[Idx(r, Salt + 7) + 1]
-        opt   == [inject |-> (mode = "dec")]
+        opt   == [inject |-> (mode = "dec"), mut |-> NoMut]
         isReq == m.kind = "request"
         emptyClient == isReq /\ (cl.null \/ cl.b = << >>)
         ts    == IF isReq THEN RequestFrame(m, v, corr, cl.null, cl.b, val, opt) ELSE ResponseFrame(m, v, corr, val, opt)
         alt   == IF emptyClient THEN Bytes(RequestFrame(m, v, corr, ~cl.null, << >>, val, opt)) ELSE << >>
         hdr   == 4 + Size(IF isReq THEN ReqHeader(m, v, corr, cl.null, cl.b, opt) ELSE ResHeader(m, v, corr, opt))
+        fr    == Bytes(ts)
+        \* the specification's own consistency: SafeDecode inverts Encode, consumes exactly the frame, leaves the sentinel
+        dec   == IF isReq THEN DecodeRequest(m, v, fr \o <<222, 173, 190, 239>>) ELSE DecodeResponse(m, v, fr \o <<222, 173, 190, 239>>)
+        rtOk  == /\ dec.ok /\ dec.val = val /\ dec.used = Len(fr) /\ dec.pos = Len(fr) /\ dec.corr = corr
+                 /\ (isReq => dec.apiKey = m.apiKey /\ dec.ver = v /\ dec.clientNull = cl.null /\ dec.client = cl.b)
         bad   == SelectSeq(ts, LAMBDA k: k.k \notin {"fix", "data", "records", "frame-size", "string-len", "compact-string-len", "bytes-len",
                                                      "compact-bytes-len", "array-count", "compact-array-count", "tagged-count", "tagged-size",
                                                      "record-set-size", "compact-record-set-size"})
     IN  [id |-> m.name \o "/v" \o ToString(v) \o "/" \o mode \o ToString(r), msg |-> m.name, api |-> m.api, apiKey |-> m.apiKey, kind |-> m.kind,
          v |-> v, mode |-> mode, row |-> r, corr |-> corr, clientNull |-> (isReq /\ cl.null), client |-> (IF isReq THEN cl.b ELSE << >>),
-         value |-> val, frame |-> Bytes(ts), frameAlt |-> alt, hdr |-> hdr, specErrors |-> Len(bad)]
+         value |-> val, frame |-> fr, frameAlt |-> alt, hdr |-> hdr, specErrors |-> Len(bad), specRoundTrip |-> rtOk,
+         layout |-> IF WithLayout THEN Layout(ts) ELSE << >>]
 
 Vectors == Concat([i \in 1..Len(Targets) |->
               [j \in 1..Len(Targets[i].rt) |-> Vector(Targets[i], Targets[i].rt[j], "rt")] \o
-              [j \in 1..Len(Targets[i].dec) |-> Vector(Targets[i], Targets[i].dec[j], "dec")]])
+              [j \in 1..Len(Targets[i].dec) |-> Vector(Targets[i], Targets[i].dec[j], "dec")] \o
+              [j \in 1..Len(Targets[i].nil) |-> Vector(Targets[i], Targets[i].nil[j], "nil")]])
 
 ASSUME ndJsonSerialize(IOEnv.OUT, Vectors)
-ASSUME PrintT(<<"WIREGEN", Len(Vectors)>>)
+ASSUME PrintT(<<"WIREGEN", Len(Vectors), Len(SelectSeq(Vectors, LAMBDA x: x.specRoundTrip /\ x.specErrors = 0))>>)
 
 VARIABLE done
 Init == done = FALSE
